@@ -220,7 +220,7 @@ type partition struct {
 }
 
 func verifyPartitions(entry *ssa.Function) []partition {
-	opt := fmt.Sprintf("$%s#1:options", load.FuncName(entry))
+	opt := fmt.Sprintf("$%s#1", load.FuncName(entry))
 	var ps []partition
 	for _, gc := range []bool{false, true} {
 		for _, cr := range []bool{false, true} {
@@ -236,7 +236,7 @@ func verifyPartitions(entry *ssa.Function) []partition {
 
 // param returns the term of parameter i of an entry function.
 func param(fn *ssa.Function, i int) *flow.Term {
-	return flow.T(flow.OpParam, fmt.Sprintf("%s#%d:%s", load.FuncName(fn), i, fn.Params[i].Name()))
+	return flow.T(flow.OpParam, fmt.Sprintf("%s#%d", load.FuncName(fn), i))
 }
 
 // fieldT builds x.f1.f2...
